@@ -1,5 +1,5 @@
 CONSTANT MaxLen = 3
 INIT Init
 NEXT Next
-INVARIANTS C11_Start C11_Retry
+INVARIANTS C11_Start C11_Retry C11_RetryOfRetry
 CHECK_DEADLOCK FALSE
